@@ -7,7 +7,7 @@
 use super::common::*;
 use super::*;
 use crate::gen::{self, Knobs};
-use crate::sut::{self, bump, guarded, mark};
+use crate::sut::{self, bump, bump_by, guarded, mark, It};
 use scnr::{FindMatches, Scanner, ScannerModeSwitcher};
 
 pub struct C12;
@@ -36,6 +36,16 @@ impl Prop for C12 {
             ..Knobs::default()
         };
         let mut gw = gen::gen_world(rng, &k);
+        if rng.chance(1, 150) {
+            // a giant input that is mostly line breaks, scanned to the end and dropped first
+            let n = rng.range(1100, 1400);
+            let giant: String = (0..n).map(|i| if i % 19 == 3 { 'a' } else if i % 31 == 5 { '#' } else { '\n' }).collect();
+            gw.world.configs[0][0].patterns.push(PatternSpec { pattern: "a|\\n".into(), token_type: 4243, lookahead: None });
+            gw.world.inputs.insert(0, giant);
+            gw.world.note = "giant".into();
+            mark("probe.giant_newline_input");
+            return gw.world;
+        }
         if gw.world.configs.len() == 2 && rng.chance(1, 2) {
             // the second configuration is a near-variant of the first (shares modes / patterns with
             // it), so that anything keyed too coarsely in the process-wide cache is shared
@@ -82,6 +92,15 @@ impl Prop for C12 {
             change_points,
             sharing: rng.below(4),
             setup: 0,
+            prelude: if world.note == "giant" {
+                vec![
+                    Op::DropIter { it: 0 },
+                    Op::Drain { it: 0, extra: 0 },
+                    Op::NewIter { it: 0, sc: 0, input: 0, positions: true, with_offset: None },
+                ]
+            } else {
+                vec![]
+            },
         })
     }
     fn new_exec<'w>(&self, world: &'w World) -> Box<dyn Exec + 'w> {
@@ -94,13 +113,13 @@ impl Prop for C12 {
         "one case = (world, interleaved history of 2-4 clients over up to 8 iterators and 3 scanner handles) from (seed, run index); distinct = distinct hash of literal world+history (hence of the context-switch pattern and op-kind sequence); non-trivial = at least two live iterators with at least two context switches between them"
     }
     fn runs(&self) -> (u64, u64) {
-        (150_000, 5_000_000)
+        (80_000, 3_000_000)
     }
     fn expected_probes(&self) -> &'static [&'static str] {
         &[
             "probe.two_live_iters_two_ctx_switches", "probe.neighbour_midstream_in_other_mode", "probe.shared_scanner",
             "probe.two_handles_one_cached_compilation", "probe.unrelated_scanners", "probe.scanner_reused_for_second_input",
-            "probe.scanner_rebuilt_while_iterators_live", "probe.near_variant_scanners", "probe.same_length_sibling_input", "probe.scanner_dropped_while_iterators_live", "probe.solo_replays",
+            "probe.scanner_rebuilt_while_iterators_live", "probe.near_variant_scanners", "probe.same_length_sibling_input", "probe.positions_wrapped_iterator", "probe.giant_newline_input", "probe.scanner_dropped_while_iterators_live", "probe.solo_replays",
             "probe.policy_uniform", "probe.policy_bursty", "probe.policy_pct", "probe.policy_round_robin",
             "fault.abandon", "fault.mode_override",
         ]
@@ -117,6 +136,7 @@ struct Gen12<'w> {
     change_points: Vec<usize>,
     sharing: usize,
     setup: usize,
+    prelude: Vec<Op>,
 }
 
 impl<'w> Gen12<'w> {
@@ -180,6 +200,9 @@ impl<'w> Gen for Gen12<'w> {
         if scs.is_empty() {
             return None;
         }
+        if let Some(op) = self.prelude.pop() {
+            return Some(op);
+        }
         let client = self.schedule(rng);
         let slots = [client * 2, client * 2 + 1];
         let live: Vec<usize> = slots.iter().copied().filter(|s| self.m.iters[*s].is_some()).collect();
@@ -188,12 +211,13 @@ impl<'w> Gen for Gen12<'w> {
             let it = *rng.pick(&free);
             let input = rng.below(w.inputs.len());
             let with_offset = if rng.chance(1, 8) { Some(*rng.pick(&gen::boundaries(&w.inputs[input]))) } else { None };
-            return Some(Op::NewIter { it, sc: *rng.pick(&scs), input, positions: false, with_offset });
+            return Some(Op::NewIter { it, sc: *rng.pick(&scs), input, positions: rng.chance(1, 6), with_offset });
         }
         let it = *rng.pick(&live);
         let im = self.m.iters[it].as_ref().unwrap();
-        let can_adv = im.last_peek.as_ref().map(|p| !p.1.is_empty()).unwrap_or(false);
-        Some(match rng.weighted(&[50, 10, 8, 6, 4, 5, 3, 2, if can_adv { 8 } else { 0 }]) {
+        let plain = !im.positions;
+        let can_adv = plain && im.last_peek.as_ref().map(|p| !p.1.is_empty()).unwrap_or(false);
+        Some(match rng.weighted(&[50, if plain { 10 } else { 0 }, 8, 6, 4, 5, 3, 2, if can_adv { 8 } else { 0 }]) {
             0 => Op::Next { it },
             1 => Op::PeekN { it, n: rng.range(1, 4) },
             2 => Op::SetModeIter { it, mode: rng.below(self.m.n_modes(it)) },
@@ -223,7 +247,7 @@ impl<'w> Gen for Gen12<'w> {
 /// addresses with other text behind them (what a parser reusing its buffer does).
 struct Live {
     // field order matters: the iterator is dropped before the buffer it borrows
-    f: FindMatches<'static>,
+    f: It<'static>,
     buf: Box<str>,
     inst: usize,
     sc: usize,
@@ -238,6 +262,7 @@ struct Inst {
     how: BuildHow,
     input: usize,
     with_offset: Option<usize>,
+    positions: bool,
     recs: Vec<(usize, Op, Obs)>,
 }
 
@@ -252,24 +277,57 @@ struct Exec12<'w> {
 
 /// Apply one iterator operation; identical code for the interleaved run and the solo replay.
 /// Returns None if the operation's precondition does not hold (skipped).
-fn apply(f: &mut FindMatches<'_>, input: &str, n_modes: usize, last_peek: &mut Option<Vec<Tok>>, op: &Op) -> Option<Obs> {
+fn apply(f: &mut It<'_>, input: &str, n_modes: usize, last_peek: &mut Option<Vec<Tok>>, op: &Op) -> Option<Obs> {
     let lp = last_peek.clone();
     let obs = match op {
-        Op::Next { .. } => match guarded(|| f.next().map(|m| sut::tok(&m))) {
-            Ok(t) => Obs::Tok(t),
-            Err(p) => Obs::Panic(p),
-        },
-        Op::PeekN { n, .. } => match guarded(|| sut::peek_obs(f.peek_n(*n))) {
+        Op::Next { .. } => {
+            if matches!(f, It::Pos(_)) {
+                match guarded(|| f.next_ext()) {
+                    Ok(t) => Obs::TokPos(t),
+                    Err(p) => Obs::Panic(p),
+                }
+            } else {
+                match guarded(|| f.next_tok()) {
+                    Ok(t) => Obs::Tok(t),
+                    Err(p) => Obs::Panic(p),
+                }
+            }
+        }
+        Op::Drain { .. } => {
+            // scan to the end; the observation is the number of tokens and the last one
+            let mut n = 0usize;
+            let mut last = None;
+            let mut res = None;
+            for _ in 0..input.len() + 2 {
+                match guarded(|| if matches!(f, It::Pos(_)) { f.next_ext() } else { f.next_tok().map(|t| (t, (0, 0), (0, 0))) }) {
+                    Ok(Some(t)) => {
+                        n += 1;
+                        last = Some(t);
+                    }
+                    Ok(None) => break,
+                    Err(p) => {
+                        res = Some(Obs::Panic(p));
+                        break;
+                    }
+                }
+            }
+            res.unwrap_or(Obs::Toks(vec![(n, 0, 0), last.map(|t| t.0).unwrap_or((0, 0, 0)), last.map(|t| (t.1 .0, t.1 .1, t.2 .0)).unwrap_or((0, 0, 0))]))
+        }
+        Op::PeekN { n, .. } => {
+            f.plain()?;
+            match guarded(|| sut::peek_obs(f.plain().unwrap().peek_n(*n))) {
             Ok((k, v)) => {
                 *last_peek = Some(v.clone());
                 return Some(Obs::Peek(k, v));
             }
             Err(p) => Obs::Panic(p),
-        },
+            }
+        }
         Op::AdvanceToPeeked { k, .. } => {
             let pk = lp?;
             let t = pk.get(*k)?;
-            match guarded(|| f.advance_to(t.2)) {
+            f.plain()?;
+            match guarded(|| f.plain().unwrap().advance_to(t.2)) {
                 Ok(r) => Obs::Num(r),
                 Err(p) => Obs::Panic(p),
             }
@@ -297,7 +355,31 @@ fn apply(f: &mut FindMatches<'_>, input: &str, n_modes: usize, last_peek: &mut O
 }
 
 impl<'w> Exec12<'w> {
-    fn solo(&self, inst: &Inst) -> Option<Violation> {
+    /// The solo replay runs in a fresh thread (fresh thread-local state), with the process-wide
+    /// cache cleared, on a fresh handle and on the world's own copy of the input.
+    /// All solo replays of a run share ONE fresh thread (a thread per replay costs too much).
+    fn solo_all(&self) -> Option<Violation> {
+        std::thread::scope(|s| {
+            s.spawn(|| {
+                let mut first: Option<Violation> = None;
+                for inst in &self.insts {
+                    if inst.recs.is_empty() {
+                        continue;
+                    }
+                    if let Some(v) = self.solo_inner(inst) {
+                        if first.as_ref().map(|f| v.step < f.step).unwrap_or(true) {
+                            first = Some(v);
+                        }
+                    }
+                }
+                first
+            })
+            .join()
+            .unwrap_or(None)
+        })
+    }
+
+    fn solo_inner(&self, inst: &Inst) -> Option<Violation> {
         let cfg = &self.world.configs[inst.cfg];
         let input: &str = &self.world.inputs[inst.input];
         // the solo replay must not depend on what the interleaved run left in the process-wide cache
@@ -309,10 +391,7 @@ impl<'w> Exec12<'w> {
                 return Some(viol("C12/solo_replay/rebuild_failed".into(), step, "the same configuration builds again", e));
             }
         };
-        let mut f = sc.find_iter(input);
-        if let Some(o) = inst.with_offset {
-            f = f.with_offset(o);
-        }
+        let mut f = It::new(&sc, input, inst.positions, inst.with_offset);
         let mut lp = None;
         for (step, op, obs) in &inst.recs {
             let got = apply(&mut f, input, cfg.len(), &mut lp, op);
@@ -385,7 +464,7 @@ impl<'w> Exec for Exec12<'w> {
                 s.set_mode(*mode);
                 StepOut::ok(Obs::Unit)
             }
-            Op::NewIter { it, sc, input, with_offset, .. } => {
+            Op::NewIter { it, sc, input, with_offset, positions } => {
                 let Some(Some((s, cfg, how, uses))) = self.scanners.get_mut(*sc) else { return StepOut::skipped() };
                 let Some(inp) = world.inputs.get(*input) else { return StepOut::skipped() };
                 let inp: &'w str = inp.as_str();
@@ -413,12 +492,12 @@ impl<'w> Exec for Exec12<'w> {
                 // SAFETY: `buf` is heap-allocated, never mutated, and outlives `f`: both live in the
                 // same `Live` value and `f` is declared (hence dropped) first.
                 let text: &'static str = unsafe { &*(&*buf as *const str) };
-                let mut f = s.find_iter(text);
-                if let Some(o) = with_offset {
-                    f = f.with_offset(*o);
+                if *positions {
+                    mark("probe.positions_wrapped_iterator");
                 }
+                let f = It::new(s, text, *positions, *with_offset);
                 let inst = self.insts.len();
-                self.insts.push(Inst { cfg: *cfg, how: *how, input: *input, with_offset: *with_offset, recs: vec![] });
+                self.insts.push(Inst { cfg: *cfg, how: *how, input: *input, with_offset: *with_offset, positions: *positions, recs: vec![] });
                 self.iters[*it] = Some(Live { f, buf, inst, sc: *sc, n_modes: world.configs[*cfg].len(), last_peek: None, nexts: 0, exhausted: false });
                 StepOut::ok(Obs::Unit)
             }
@@ -464,11 +543,21 @@ impl<'w> Exec for Exec12<'w> {
                     bump("fault.mode_override");
                 }
                 let Some(obs) = apply(&mut l.f, &l.buf, l.n_modes, &mut l.last_peek, op) else { return StepOut::skipped() };
-                if let Obs::Tok(t) = &obs {
-                    l.nexts += 1;
-                    if t.is_none() {
-                        l.exhausted = true;
+                match &obs {
+                    Obs::Tok(t) => {
+                        l.nexts += 1;
+                        if t.is_none() {
+                            l.exhausted = true;
+                        }
                     }
+                    Obs::TokPos(t) => {
+                        l.nexts += 1;
+                        if t.is_none() {
+                            l.exhausted = true;
+                        }
+                    }
+                    Obs::Toks(_) => l.exhausted = true,
+                    _ => {}
                 }
                 if matches!(op, Op::SetOffset { .. }) {
                     l.exhausted = false;
@@ -486,18 +575,8 @@ impl<'w> Exec for Exec12<'w> {
         // maximal isolation: nothing of the interleaved run is alive during the solo replays
         self.iters.clear();
         self.scanners.clear();
-        let mut first: Option<Violation> = None;
-        for inst in &self.insts {
-            if inst.recs.is_empty() {
-                continue;
-            }
-            bump("probe.solo_replays");
-            if let Some(v) = self.solo(inst) {
-                if first.as_ref().map(|f| v.step < f.step).unwrap_or(true) {
-                    first = Some(v);
-                }
-            }
-        }
+        bump_by("probe.solo_replays", self.insts.iter().filter(|i| !i.recs.is_empty()).count() as u64);
+        let first = self.solo_all();
         first
     }
 }
